@@ -5,7 +5,7 @@
 (* the parse hook on, the Parse events of that call follow and must be BitIO  *)
 (* parse steps over the frame's payload: cursor monotone, inside the body,    *)
 (* every value equal to the bits at the cursor.                               *)
-EXTENDS Frame, Dispatch, BitOps, Json, IOUtils, TLC
+EXTENDS Decoder, Dispatch, Json, IOUtils, TLC
 
 Rec == ndJsonDeserialize(IOEnv.TRACE)
 VARIABLES l, supported, body, pcur, pending
@@ -25,6 +25,11 @@ OutClass(r) == CASE r.out = "Empty" -> Empty
 DecodeOk(r) ==
     /\ Classify(r.frame) = "ok" /\ Len(r.frame) = FrameLen(r.frame)        \* harness precondition
     /\ OutClass(r) \in Class(DeclLen(r.frame), Num(r.frame), supported)    \* C14 / C02: a documented outcome of the right class
+    \* the class the layout fixes (Decoder): enough body and admissible counts => typed, else Corrupt
+    /\ (Num(r.frame) \in supported /\ DeclLen(r.frame) >= 2) =>
+          LET ec == ExpectedClass(r.frame) IN
+          /\ ec = "typed" => r.out = "Typed"
+          /\ ec = "corrupt" => r.out = "Corrupt"
     /\ r.out = "Typed" => /\ r.number = r.variant_number                   \* Message::number() = digits of the variant name
                           /\ r.nonfinite = <<>>                            \* every float of a decoded message is finite
                           /\ r.self_eq = TRUE                              \* and it compares equal to itself
@@ -54,6 +59,7 @@ Next == TraceConfig \/ TraceDecode \/ TraceParse \/ TraceConsume \/ TraceDecodeE
 
 Explain(r) == CASE r.ev = "Decode" ->
                    [frame_class |-> Classify(r.frame), dlen |-> DeclLen(r.frame), number_in_frame |-> Num(r.frame),
+                    expected_class |-> ExpectedClass(r.frame),
                     supported |-> "see Config event", got |-> r.out,
                     rule |-> "dlen<2 -> Empty; unsupported n -> MsgNotSupported(n); supported n -> typed(n) or Corrupt; typed: finite floats, self-equal, number() = variant"]
                 [] OTHER -> [event |-> r.ev, rule |-> "Parse events must be BitIO parse steps at the spec's cursor inside the payload"]
